@@ -1207,7 +1207,7 @@ def run(ctx: core.Ctx):
 
         lab = Lab(base=base, languages=tuple(sorted(set(B_LANGS) | set(C_LANGS))))
         # -------- A: generated histories with decoys, sub-folders, second user directory, real built-in package
-        core.explore(ctx, hist_strategy(), lambda c: eval_a(lab, ctx, c), 500 if q else 8000)
+        core.explore(ctx, hist_strategy(), lambda c: eval_a(lab, ctx, c), 500 if q else 5000)
         lap("A.histories")
         # -------- A: end to end through generate_all
         for k, mask in enumerate(range(1 << len(E2E_NAMES))):
